@@ -148,6 +148,34 @@ Proof.
   apply xor_span_perm; auto. apply span_nodup; assumption.
 Qed.
 
+(* tsr.delta: stabilizer tensors are deltas: 1 when all non-dummy (dimension > 1) indices are equal *)
+Definition delta_val (dims idx : list nat) : K :=
+  let nd := map snd (filter (fun p => negb (fst p =? 1)) (combine dims idx)) in
+  match nd with
+  | [] => rI
+  | i :: rest => if forallb (Nat.eqb i) rest then rI else 0
+  end.
+Lemma delta_val_spec dims idx :
+  delta_val dims idx = rI \/ delta_val dims idx = 0.
+Proof. unfold delta_val. destruct (map snd _) as [|i rest]; auto. destruct (forallb _ rest); auto. Qed.
+(* c10_delta_sem: a delta entry is 1 exactly when every pair of non-dummy legs carries the same index *)
+Lemma delta_val_one dims idx : length dims = length idx ->
+  (forall j k, j < length dims -> k < length dims -> nth j dims 1 <> 1 -> nth k dims 1 <> 1 -> nth j idx O = nth k idx O) ->
+  delta_val dims idx = rI.
+Proof.
+  intros HL H. unfold delta_val.
+  destruct (map snd (filter (fun p => negb (fst p =? 1)) (combine dims idx))) as [|i rest] eqn:E; [reflexivity|].
+  replace (forallb (Nat.eqb i) rest) with true; [reflexivity|]. symmetry. apply forallb_forall. intros x Hx.
+  apply Nat.eqb_eq.
+  assert (Hin : forall y, In y (i :: rest) -> exists j, j < length dims /\ nth j dims 1 <> 1 /\ nth j idx O = y).
+  { intros y Hy. rewrite <- E in Hy. apply in_map_iff in Hy. destruct Hy as ([d v] & <- & Hp). apply filter_In in Hp.
+    destruct Hp as [Hc Hd]. cbn in Hd. apply (In_nth _ _ (1, O)) in Hc. destruct Hc as (j & Hj & Ej).
+    rewrite combine_length, <- HL, Nat.min_id in Hj. rewrite combine_nth in Ej by exact HL. injection Ej as E1 E2.
+    exists j. repeat split; auto. rewrite E1. intros ->. discriminate. }
+  destruct (Hin i (or_introl eq_refl)) as (j & Hj & Hdj & <-).
+  destruct (Hin x (or_intror Hx)) as (k & Hk & Hdk & <-). apply H; auto.
+Qed.
+
 (* qubit-node values of the planar networks: the probability of f . Z^n X^e Z^s X^w (horizontal edge)
    and the rotated index order for vertical edges (PlanarMPSDecoder.TNC.h_node_value / v_node_value) *)
 Definition h_node (d : dist) (fx fz n e s w : bool) : K := pick d (xorb (xorb fx e) w) (xorb (xorb fz n) s).
